@@ -66,6 +66,7 @@ enum {
     F_EXTREME,
     F_WALL_BEFORE_EPOCH,
     F_DST_GAP_READING,
+    F_FRACTION_10_OR_MORE_DIGITS,
     F_NFLAGS
 };
 static const char *FLAG_NAMES[F_NFLAGS] = {
@@ -92,6 +93,7 @@ static const char *FLAG_NAMES[F_NFLAGS] = {
     "extreme_instant",
     "west_offset_wall_clock_before_epoch",
     "reading_inside_a_daylight_saving_switch_window",
+    "fraction_of_10_or_more_digits",
 };
 
 /* ------------------------------------------------------------------ reference calendar (a): closed form */
@@ -681,14 +683,19 @@ static void run_variant(int64_t t) {
             mon_flag(F_RFC822_OFFSET);
         }
     } else {
-        char frac[16] = "";
+        char frac[48] = "";
         unsigned fk = (unsigned)mon_below(r, 5);
         if (fk == 1) {
             snprintf(frac, sizeof(frac), ".5");
         } else if (fk == 2) {
             snprintf(frac, sizeof(frac), ",123456");
         } else if (fk == 3) {
-            unsigned nd = (unsigned)mon_range(r, 1, 9);
+            /* the grammar puts no limit on the digits of the fraction (a double printed at full precision has 17) */
+            static const unsigned LONG_ND[] = {10, 11, 12, 15, 17, 20, 30, 40};
+            unsigned nd = mon_chance(r, 1, 4) ? LONG_ND[mon_below(r, 8)] : (unsigned)mon_range(r, 1, 9);
+            if (nd > 9) {
+                mon_flag(F_FRACTION_10_OR_MORE_DIGITS);
+            }
             frac[0] = mon_chance(r, 1, 2) ? '.' : ',';
             for (unsigned i = 0; i < nd; ++i) {
                 frac[1 + i] = (char)('0' + mon_below(r, 10));
